@@ -8,6 +8,7 @@ decisive are generated, labelled `unspecified:<class>` and only checked for tota
 Enumerated parts: `grid` (every position x length for n <= 4, both builds), `extremes` (huge / fractional / foreign
 positions), `arity` (every arity 0..max+2 per function).
 """
+import json
 import os
 import re
 import sys
@@ -367,7 +368,10 @@ def describe(exp):
     if isinstance(exp, ref.Bag):
         return "some order of " + show(exp.v)
     if isinstance(exp, ref.Approx):
-        return "sqrt(%s)" % exp.var
+        try:
+            return "sqrt(%s)" % exp.var
+        except ValueError:       # a fraction of thousands of digits (items at both ends of the range)
+            return "sqrt(a fraction of %d / %d bits)" % (exp.var.numerator.bit_length(), exp.var.denominator.bit_length())
     if isinstance(exp, ref.NumText):
         return "plain decimal text of %s" % exp.v
     return "unspecified (%s)" % exp.reason
@@ -401,6 +405,9 @@ def edges(f, args, arity_ok):
     return e
 
 
+NONFINITE = re.compile(r'"n": "-?(Infinity|Inf|s?NaN)')
+
+
 def judge(ctx, case, resp, profile=None):
     f = case["f"]
     args = [to_py(a) for a in case["args"]]
@@ -429,6 +436,9 @@ def judge(ctx, case, resp, profile=None):
         return t
     raw = resp[0]["values"][0]
     got = from_wire(raw)
+    if NONFINITE.search(json.dumps(raw)):
+        return Fail("C08/%s/non-finite-number" % f, "%s  with scope %r%s\n  evaluates to %s: an infinity or a NaN is not a FEEL value (out of range is null)" % (
+            texts[0], scope, where, json.dumps(raw)[:300]))
     if not matches_expectation(exp, got):
         return Fail(diagnose(f, args, exp, got, raw), "%s  with scope %r%s\n  evaluates to %s\n  DMN 1.3 10.3.4 defines %s" % (
             texts[0], scope, where, show(got), describe(exp)))
@@ -856,6 +866,8 @@ def gen_sort(src):
 # ---- numeric aggregates, booleans
 
 AGG_NUMS = ["1", "2", "3", "0", "-1", "2.5", "1.0", "10", "7", "0.1", "-3.25", "100", "2.00", "12345678", "0.0001", "6"]
+# numbers at the edges of the range: sums, means and squares of them leave it
+AGG_EXTREME = ["9E+6144", "-9E+6144", "9.999999999999999999999999999999999E+6144", "5E+6144", "1E+6144", "1E+3073", "-1E+3073", "1E-6176", "1E+6111"]
 
 
 def g_agg_num(src):
@@ -872,6 +884,9 @@ def gen_aggregate(f, item, alien):
             items = g_from_pool(src, n, item)
         if items and src.bool(0.12):
             items[src.int(0, len(items) - 1)] = alien(src)
+        if items and item is g_agg_num and src.bool(0.08):
+            for _ in range(src.int(1, 3)):
+                items[src.int(0, len(items) - 1)] = N(src.choice(AGG_EXTREME))
         if src.bool(0.25) and items:
             args = items              # c1, .., cN form
         elif src.bool(0.04):
@@ -1034,6 +1049,12 @@ def extremes(ctx):
                 yield {"f": f, "args": [subject, N(-2), x], "modes": [mode] * 3, "order": [0, 2, 1]}
             yield {"f": "insert before", "args": [l, x, N(99)], "modes": [mode] * 3, "order": [2, 0, 1]}
             yield {"f": "remove", "args": [l, x], "modes": [mode] * 2, "order": [1, 0]}
+    # aggregates over numbers at the edges of the range (regression cases of the fixed finding non-finite-number: the sum is out of range)
+    for f in ("sum", "mean", "median", "stddev", "min", "max", "mode"):
+        for a in AGG_EXTREME[:5]:
+            for b in AGG_EXTREME[::2]:
+                yield {"f": f, "args": [{"l": [N(a), N(b)]}], "modes": [0], "order": [0]}
+                yield {"f": f, "args": [{"l": [N(a), N(b), N("-" + b if not b.startswith("-") else b[1:])]}], "modes": [1], "order": [0]}
 
 
 PROTO = {
